@@ -105,6 +105,19 @@ func LoadEngine(repoDir string) (*Engine, error) {
 		sort.Strings(missing)
 		return nil, fmt.Errorf("contract drift: contracts name functions that do not exist: %s", strings.Join(missing, ", "))
 	}
+	// a spec function has one global definition: closed defines clauses of the same function in
+	// different contracts must agree
+	canon := map[string]string{}
+	for k, fc := range e.cs.Funcs {
+		for _, d := range fc.Defines {
+			if closed, fname, c := closedDefinition(d.Expr); closed {
+				if prev, ok := canon[fname]; ok && prev != c {
+					return nil, fmt.Errorf("spec function %s is given two different definitions (second in %s)", fname, k)
+				}
+				canon[fname] = c
+			}
+		}
+	}
 	return e, nil
 }
 
@@ -192,7 +205,7 @@ func (e *Engine) VerifyFunction(fn *ssa.Function, opts VerifyOpts) (u *Unit) {
 		name += " /unconstrained"
 	}
 	u = &Unit{Name: name, W: NewWorld(), eng: e, nameCnt: map[string]int{}, usedAssumed: map[string]bool{}, usedPureUF: map[string]bool{},
-		havocCalls: map[string]bool{}, inlined: map[string]bool{}, lockKeys: map[string]bool{}, boxed: map[string]boxedVal{}}
+		havocCalls: map[string]bool{}, inlined: map[string]bool{}, lockKeys: map[string]bool{}, hintTags: map[string]string{}, boxed: map[string]boxedVal{}}
 	u.Fn = fn
 	defer func() {
 		if r := recover(); r != nil {
@@ -457,7 +470,7 @@ func (e *Engine) assumeAxioms(u *Unit, x *Exec, pkgPath string) {
 // VerifyLemmas proves the lemmas of a package from its axioms alone.
 func (e *Engine) VerifyLemmas(pkgPath string, names []string) *Unit {
 	u := &Unit{Name: "lemmas " + pkgPath, W: NewWorld(), eng: e, nameCnt: map[string]int{}, usedAssumed: map[string]bool{}, usedPureUF: map[string]bool{},
-		havocCalls: map[string]bool{}, inlined: map[string]bool{}, lockKeys: map[string]bool{}, boxed: map[string]boxedVal{}}
+		havocCalls: map[string]bool{}, inlined: map[string]bool{}, lockKeys: map[string]bool{}, hintTags: map[string]string{}, boxed: map[string]boxedVal{}}
 	st := &State{cells: map[interface{}]Value{}, heaps: map[string]Term{}, gen: &Gen{kind: "init"}, u: u}
 	st.alloc = u.W.Const("alloc@0", SInt)
 	x := &Exec{u: u, regs: map[ssa.Value]Value{}, cellable: map[*ssa.Alloc]bool{}, freshBases: map[string]bool{}, prefix: u.Name, entry: st, alloc0: st.alloc}
@@ -536,7 +549,7 @@ func (e *Engine) contractUsable(fc *FuncContract, fn *ssa.Function) (ok bool) {
 	reason := ""
 	func() {
 		u := &Unit{Name: "dry-run", W: NewWorld(), eng: e, nameCnt: map[string]int{}, usedAssumed: map[string]bool{}, usedPureUF: map[string]bool{},
-			havocCalls: map[string]bool{}, inlined: map[string]bool{}, lockKeys: map[string]bool{}, boxed: map[string]boxedVal{}}
+			havocCalls: map[string]bool{}, inlined: map[string]bool{}, lockKeys: map[string]bool{}, hintTags: map[string]string{}, boxed: map[string]boxedVal{}}
 		st := &State{cells: map[interface{}]Value{}, heaps: map[string]Term{}, gen: &Gen{kind: "init"}, u: u}
 		st.alloc = u.W.Const("alloc@0", SInt)
 		x := &Exec{u: u, fn: fn, regs: map[ssa.Value]Value{}, fc: fc, cellable: map[*ssa.Alloc]bool{}, freshBases: map[string]bool{}, prefix: "dry-run", entry: st, alloc0: st.alloc}
